@@ -87,6 +87,10 @@ type Stream struct {
 	// when callback.OnData inner call stream.Close set this field
 	// after OnData return check state and call stream.Close again
 	callbackCloseState uint32
+	// set when Close() was called while a callback was in process and moved the
+	// stream from opened to halfClosed itself: the deferred close() must then still
+	// notify the peer and report OnLocalClose, exactly as a direct close would.
+	deferredLocalClose uint32
 }
 
 // newStream is used to construct a new stream within
@@ -281,7 +285,9 @@ func (s *Stream) Close() error {
 		atomic.StoreUint32(&s.callbackCloseState, uint32(callbackWaitExit))
 	}
 	if atomic.LoadUint32(&s.callbackInProcess) == 1 {
-		atomic.CompareAndSwapUint32(&s.state, uint32(streamOpened), uint32(streamHalfClosed))
+		if atomic.CompareAndSwapUint32(&s.state, uint32(streamOpened), uint32(streamHalfClosed)) {
+			atomic.StoreUint32(&s.deferredLocalClose, 1)
+		}
 		return nil
 	}
 
@@ -313,7 +319,7 @@ func (s *Stream) close() error {
 			s.asyncGoroutineWg.Wait()
 		}
 		s.clean()
-		if oldState == uint32(streamOpened) {
+		if oldState == uint32(streamOpened) || atomic.CompareAndSwapUint32(&s.deferredLocalClose, 1, 0) {
 			s.safeCloseNotify()
 			callback := s.getCallbacks()
 			if callback != nil {
